@@ -53,31 +53,33 @@ theorem coh_bind (s : State) (ns name : String) (uid : Nat) (node : String) (ch 
     · exact h
     · split
       · exact h
-      · rename_i infos hinfos
-        split
+      · split
         · exact h
-        · have hi : infos = byKeyAndRanges s (keyOf pod) pod.ranges ∨ (pod.ranges.isEmpty = true ∧ ¬ infos.isEmpty = true) := by
-            unfold bindInfos at hinfos
-            split at hinfos
-            · rename_i hc
-              right
-              simp only [Bool.and_eq_true] at hc
-              refine ⟨hc.1, ?_⟩
-              cases hpf : pickFirst (byKeyAndRanges s (keyOf pod) pod.ranges) ch.first with
-              | none => rw [hpf] at hinfos; cases hinfos
-              | some ip => rw [hpf] at hinfos; simp at hinfos; subst hinfos; simp
-            · left; cases hinfos; rfl
-          have ba := bindAlloc_spec s pod node (policyOf pod) infos ch.pick h hi
+        · rename_i infos hinfos
           split
           · exact h
-          · exact ba.coherent
-          · have bl := bindLoop_spec (keyOf pod) node { policy := policyOf pod, node := node, uid := pod.uid }
-              (infos.filterMap id)
-              ((bindAlloc s pod node { policy := policyOf pod, node := node, uid := pod.uid } infos ch.pick).2.2.filterMap id)
-              _ ba.coherent
+          · have hi : infos = byKeyAndRanges s (keyOf pod) pod.ranges ∨ (pod.ranges.isEmpty = true ∧ ¬ infos.isEmpty = true) := by
+              unfold bindInfos at hinfos
+              split at hinfos
+              · rename_i hc
+                right
+                simp only [Bool.and_eq_true] at hc
+                refine ⟨hc.1, ?_⟩
+                cases hpf : pickFirst (byKeyAndRanges s (keyOf pod) pod.ranges) ch.first with
+                | none => rw [hpf] at hinfos; cases hinfos
+                | some ip => rw [hpf] at hinfos; simp at hinfos; subst hinfos; simp
+              · left; cases hinfos; rfl
+            have ba := bindAlloc_spec s pod node (policyOf pod) infos ch.pick h hi
             split
-            · exact coh_bindCommit _ _ _ _ _ _ _ bl.1
-            · exact bl.1
+            · exact h
+            · exact ba.coherent
+            · have bl := bindLoop_spec (keyOf pod) node { policy := policyOf pod, node := node, uid := pod.uid }
+                (infos.filterMap id)
+                ((bindAlloc s pod node { policy := policyOf pod, node := node, uid := pod.uid } infos ch.pick).2.2.filterMap id)
+                _ ba.coherent
+              split
+              · exact coh_bindCommit _ _ _ _ _ _ _ bl.1
+              · exact bl.1
 
 theorem coh_unbind (s : State) (pod : Pod) (h : Coherent s) : Coherent (unbind Facts.good s pod).1 := by
   unfold unbind
